@@ -502,14 +502,14 @@ def expectation(spec: dict[str, Any], args: tuple[Any, ...], exp: tuple[str, Any
     # 1. an argument that does not fit its fixed-width parameter type must be rejected at the call boundary
     for t, v in zip(pt, args):
         if t in FIXED and not in_range(t, v):
-            return ("raise", CONV_EXC)
+            return ("raise", CONV_EXC, f"int->{t}:{'below' if v < FIXED[t][0] else 'above'}:call-boundary")
     # 2. mixed fixed-width/int operations coerce the int operand to the fixed-width type (documented: sticky)
     if fx and spec["kind"] in ("bin", "cmp", "branch", "inplace") and spec["op"] != "divmod":
         for t, v in zip(pt, args):
             if t == "int" and not in_range(fx, v):
                 if spec["op"] in ("/",) or (spec["op"] in ("**",)):
                     break  # not a native fixed-width operation: falls back to int semantics
-                return ("raise", CONV_EXC)
+                return ("raise", CONV_EXC, f"int->{fx}:{'below' if v < FIXED[fx][0] else 'above'}:operand-coercion")
     if exp[0] == "e":
         return ("raise", (exp[1],))
     v = exp[1]
@@ -517,7 +517,8 @@ def expectation(spec: dict[str, Any], args: tuple[Any, ...], exp: tuple[str, Any
     vs = [v] if not ret.startswith("tuple[") else list(v)
     if any(rt in FIXED and not in_range(rt, x) for rt, x in zip(rts, vs)):
         if spec["kind"] == "conv" and spec["pt"][0] in ("int", "bool"):
-            return ("raise", CONV_EXC)  # converting an int: rejected exactly when out of range
+            # converting an int: rejected exactly when out of range
+            return ("raise", CONV_EXC, f"int->{ret}:{'below' if v < FIXED[ret][0] else 'above'}:{spec['variant']}-conversion")
         if ret == "u8" and spec["op"] in U8_WRAP_OPS and spec["kind"] in ("bin", "inplace", "lit", "un", "const"):
             return ("value", v % 256)
         return ("free", "fixed-width result does not fit")
@@ -623,6 +624,8 @@ def violation_key(spec: dict[str, Any], args: tuple[Any, ...], want: tuple[str, 
     if want[0] == "raise":
         if tuple(want[1]) == CONV_EXC:
             what = "out-of-range-int-accepted" if got[0] == "v" else f"conversion-raises-{got[1]}"
+            if len(want) > 2:
+                return f"{what}:{want[2]}"  # the mechanism is the conversion, whatever operation follows it
         elif got[0] == "v":
             what = f"no-{want[1][0]}"
         else:
